@@ -1,4 +1,74 @@
 import GModel.Counts
+/-!
+# C05 — count matrices, occupancy and the jump-diffusivity sum conserve counts
+
+* `matrixAsIs_get`, `matrixAsIs_shape`  with all indices inside `[0, n)` the fancy-index
+  assignment of unique-pair counts puts in entry (i, j) exactly the number of rows (i, j)
+* `matrixSpec_sum`       the matrix sums to the number of rows
+* `matrixSpec_diag`      rows with origin ≠ destination ⇒ empty diagonal
+* `weightedSum_eq_rows`  Σ_ij w(i,j)·M_ij = Σ_rows w(origin, destination)  (jump diffusivity:
+                         w = squared minimum-image site distance)
+* `occ_sum`              per-site counts plus the "no site" count add up to frames × atoms
+* `nosite_fold_counterexample`, `nosite_overwrite_counterexample`
+                         a row touching "no site" (−1) is folded into the last site and may
+                         overwrite a real count (defect D5, recorded as a known finding)
+-/
 namespace G.C05
-theorem placeholder : True := trivial
+open G G.Counts
+
+/-- every index of every row lies inside the matrix -/
+def Valid (rows : List Pair) (n : Nat) : Prop :=
+  ∀ p ∈ rows, 0 ≤ p.1 ∧ p.1 < n ∧ 0 ≤ p.2 ∧ p.2 < n
+
+/-- **C05 (matrix entry)**: entry (i, j) equals the number of recorded moves i → j. -/
+theorem matrixAsIs_get (rows : List Pair) (n : Nat) (hv : Valid rows n) :
+    ∃ m, matrixAsIs rows n = some m ∧
+      ∀ i j, i < n → j < n → m.get i j = countPair rows ((i : Int), (j : Int)) := by
+  sorry
+
+/-- the result is an n × n matrix -/
+theorem matrixAsIs_shape (rows : List Pair) (n : Nat) (m : Mat) (h : matrixAsIs rows n = some m) :
+    m.length = n ∧ ∀ r ∈ m, r.length = n := by
+  sorry
+
+/-- **C05 (sum)**: the matrix sums to the number of rows (= number of jumps). -/
+theorem matrixSpec_sum (rows : List Pair) (n : Nat) (hv : Valid rows n) :
+    (matrixSpec rows n).sum = rows.length := by
+  sorry
+
+/-- **C05 (diagonal)**: when no row has origin = destination the diagonal is empty. -/
+theorem matrixSpec_diag (rows : List Pair) (n : Nat) (hd : ∀ p ∈ rows, p.1 ≠ p.2) (i : Nat) (hi : i < n) :
+    (matrixSpec rows n).get i i = 0 := by
+  sorry
+
+/-- **C05 (jump-diffusivity sum)**: summing `w(i,j) · M_ij` over the matrix is summing `w` over the rows. -/
+theorem weightedSum_eq_rows (w : Nat → Nat → Rat) (rows : List Pair) (n : Nat) (hv : Valid rows n) :
+    weightedSum w (matrixSpec rows n) = (rows.map (fun p => w p.1.toNat p.2.toNat)).sum := by
+  sorry
+
+/-- **C05 (occupancy)**: the per-site frame counts and the "no site" count add up to the
+number of (frame, atom) entries, i.e. Σ_i occupancy_i · T = #{entries at a site}. -/
+theorem occ_sum (states : List Int) (n : Nat) (hs : ∀ x ∈ states, -1 ≤ x ∧ x < n) :
+    (((List.range n).map (fun (k : Nat) => occCount states (k : Int))).sum + occCount states (-1))
+      = states.length := by
+  sorry
+
+/-! ## defect D5 (known finding): rows touching "no site" -/
+
+/-- the move (−1 → 1) is booked as a move (1 → 1) of the last site -/
+theorem nosite_fold_counterexample :
+    matrixAsIs [(0, 1), (-1, 1)] 2 = some [[0, 1], [0, 1]] ∧ countPair [(0, 1), (-1, 1)] (1, 1) = 0 := by
+  decide
+
+/-- … and the count of (−1 → 0) is overwritten by that of (1 → 0): assignment, not accumulation -/
+theorem nosite_overwrite_counterexample :
+    matrixAsIs [(-1, 0), (-1, 0), (1, 0)] 2 = some [[0, 0], [1, 0]] := by
+  decide
+
+/-- non-vacuity of `Valid` -/
+example : Valid [(0, 1), (2, 0), (0, 1)] 3 ∧
+    matrixAsIs [(0, 1), (2, 0), (0, 1)] 3 = some [[0, 2, 0], [0, 0, 0], [1, 0, 0]] := by
+  refine ⟨?_, by decide⟩
+  intro p hp; simp at hp; rcases hp with h | h | h <;> subst h <;> decide
+
 end G.C05
